@@ -11,7 +11,7 @@ CLAIMED = {
  },
  "C04": {
   "level": "exploration",
-  "technique": "bounded-exhaustive enumeration on the real code: all functions x all variable subsets / literal cubes / 13^3 replacement vectors x 6 orders, substitution-reuse histories; truth-table oracle",
+  "technique": "bounded-exhaustive enumeration on the real code: all functions x all variable subsets / literal cubes / 13^3 replacement vectors x 6 orders, substitution-reuse histories, all ordered pairs of restrict/quantify requests on one cache; truth-table oracle; loom exploration (all interleavings incl. weak-memory behaviours) of the substitution id generator, code derived from the source text at build time",
   "text": "All 256 functions x all 8 variable subsets (3 quantifiers), all 27 restriction cubes, all 8 inner operators x pairs for the combined forms and all 2197 replacement vectors are executed for every order with 1 and 2 workers; substitution objects are reused and alternated with gc in between. Complete enumeration of the n=3 space (n=4 unary block in thorough).",
   "note": "ZBDD: restrict only (the library offers nothing else); operands over >4 variables not enumerated",
   "ref": "3/C04"
@@ -32,7 +32,7 @@ CLAIMED = {
  },
  "C08": {
   "level": "model_checking",
-  "technique": "bounded-exhaustive exploration of the real code: all source orders x all (partial) requests with all functions alive (n=3; n=4 totals), depth-bounded histories of reorderings mixed with operations/drops/gc; model oracle (tables, Kendall-tau minimum, minimal diagram size) + structural/ref-count audit; one process-isolated group per case",
+  "technique": "bounded-exhaustive exploration of the real code: all source orders x all (partial) requests with all functions alive (n=3; n=4 totals), depth-bounded histories of reorderings mixed with operations/drops/gc, single swaps through level_down on dense and sparse live sets, the concurrent variant on real workers and - with the worker instances as controlled threads - under ALL schedules with <= 2 preemptions (cooperative scheduler over cfg(oxidd_verif) hooks, deadlock = lost notification detected); model oracle (tables, Kendall-tau minimum, minimal diagram size) + structural/ref-count audit; one process-isolated group per case",
   "text": "Every (source order, request) pair is executed on the real manager with every function alive and checked against the model (order established, minimal number of adjacent swaps by brute force, every table preserved, canonical, exact reference counts, minimal node counts); chains of reorderings interleaved with operations, drops and gc are enumerated to a depth bound and every state is audited and compared with a manager built directly in the final order.",
   "note": "sequential bubble sort only in this revision (the concurrent variant needs >= 65536 nodes; see DESIGN.md); MTBDD/TDD reordering not yet enumerated; orders on >4 variables not enumerated",
   "ref": "3/C08"
@@ -46,28 +46,28 @@ CLAIMED = {
  },
  "C01": {
   "level": "model_checking",
-  "technique": "depth-bounded exhaustive exploration of operation histories on the real managers (13-action alphabet on 3 handle registers, 5 kinds, fresh manager per history, model in lock-step) + all-pairs comparison of two construction routes for all 256 functions x 6 orders",
+  "technique": "depth-bounded exhaustive exploration of operation histories on the real managers (13-action alphabet on 3 handle registers, 5 kinds, fresh manager per history, model in lock-step) + all-pairs comparison of two construction routes for all 256 functions x 6 orders + sweep over the whole operation alphabet with all 256 canonical handles alive (every result must be the live handle of the table it denotes)",
   "text": "Every history up to the depth bound is executed on the real code and after every step all live handle pairs are compared (== / Hash / Ord vs. model tables) and each handle is compared with a fresh bottom-up construction of the same function; independently all 65536 pairs of (route A, route B) handles are compared per kind and order.",
   "note": "depth 4 (quick) / 5 (thorough); histories are not pruned by abstract state; index backend; functions over >5 variables not enumerated",
   "ref": "3/C01"
  },
  "C03": {
   "level": "model_checking",
-  "technique": "depth-bounded exhaustive history exploration on the real managers with a structural auditor (public API only) and a minimal-diagram-size oracle after every step, ample and tight (failing) node stores",
+  "technique": "depth-bounded exhaustive history exploration on the real managers with a structural auditor (public API only) and a minimal-diagram-size oracle after every step, ample and tight (failing) node stores; sweep over the whole operation alphabet with the auditor over the entire store after every batch; single level swaps (level_down) and concurrent reorderings of sparse live sets",
   "text": "After every step of every explored history the whole stored graph is audited (order, reduction rules, duplicates, level bookkeeping, var/level maps) and node_count of every live handle must equal the size of the unique reduced diagram computed from the model table.",
   "note": "depth 4/5; DDDMP import and named variables are audited in C15/C16; index backend",
   "ref": "3/C03"
  },
  "C05": {
   "level": "model_checking",
-  "technique": "depth-bounded exhaustive history exploration on the real managers with the reference-count equation, gc exactness, teardown and capacity-probe oracles after every step / history",
+  "technique": "depth-bounded exhaustive history exploration on the real managers with the reference-count equation, gc exactness, teardown and audited capacity-probe oracles after every step / history; extra configurations: F64 terminals, 4/6-entry terminal tables, every action nested in a session of a second manager, ZBDD set operations",
   "text": "For every explored history: after each step every stored node's ref_count equals live handles + stored parent edges (+ manager-held ZBDD chain); each gc leaves exactly the reachable nodes and returns the number it removed; after dropping everything the manager is back at its initial node count and a capacity probe shows no lost slot.",
   "note": "depth 4/5; background collector wake-up not driven (see C07); terminal reference counts only through num_terminals; index backend",
   "ref": "3/C05"
  },
  "C06": {
   "level": "model_checking",
-  "technique": "depth-bounded exhaustive history exploration executed in lock-step on managers differing only in apply-cache capacity (1, 2, 16, 4096, warmed-up), differential + model oracle, every operation re-issued",
+  "technique": "depth-bounded exhaustive history exploration executed in lock-step on managers differing only in apply-cache capacity (1, 2, 16, 4096, warmed-up), differential + model oracle, every operation re-issued; terminal-heavy MTBDD and ZBDD set-operation alphabets on tiny terminal tables; request-pair differential (after a first request vs. on an emptied cache); loom exploration of the substitution id generator",
   "text": "Every explored history runs on up to five managers; after each step all registers of all managers must denote the model's function with the model's minimal node count, and re-issuing an operation must return the identical handle; gc, reorderings and add_vars are part of the alphabet, so stale entries surviving them are reachable.",
   "note": "depth 4/5; alphabet of 5 operations per kind (different operators on the same operand registers); index backend",
   "ref": "3/C06"
@@ -130,14 +130,14 @@ CLAIMED = {
  },
  "C07": {
   "level": "model_checking",
-  "technique": "stateless exploration of ALL thread schedules of the real manager up to a preemption bound (cooperative scheduler over cfg(oxidd_verif) hooks at every lock / try-lock / gc phase / handle clone+drop / fork-join; blocking acquisitions carry a readiness predicate so deadlock is detected), 10 collision-forcing scripts x 3 kinds, fresh manager per schedule; sequential-result + model + audit oracle",
+  "technique": "stateless exploration of ALL thread schedules of the real manager up to a preemption bound (cooperative scheduler over cfg(oxidd_verif) hooks at every lock / try-lock / gc phase / handle clone+drop / fork-join; blocking acquisitions carry a readiness predicate so deadlock is detected), 14 collision-forcing scripts x 3 kinds incl. OutOfMemory inside a forked join and the background collector thread adopted as a controlled daemon thread (schedule tree split into 16 disjoint parts), fresh manager per schedule; sequential-result + model + audit oracle; loom exploration (all interleavings incl. weak-memory behaviours, 2-3 threads) of the apply-cache bucket lock, code derived from the source text at build time",
   "text": "Every schedule with at most 2 preemptions (3 in the thorough tier for the two-thread scripts) of each script is executed on the real code; in every execution all results must denote the model's functions and equal the sequentially recomputed handles, no thread may panic or deadlock, and the final structural/reference-count audit and teardown must hold.",
   "note": "sequentially consistent interleavings at the instrumented points only (no weak-memory effects); background-GC condvar wake-up and rayon work stealing replaced by equivalent controlled forks; pointer backend not instrumented",
   "ref": "3/C07"
  },
  "C20": {
   "level": "model_checking",
-  "technique": "differential replay of bounded-exhaustive workloads (all 64x64 operand pairs x 8 connectives x 6 orders x 3 kinds, all depth-3/4 histories over 12 actions, TDD n=1 all tuples) across 4 (thorough: 8) separately built feature configurations x 2-3 worker counts; transcript equality + truth-table model + structural/ref-count audit",
+  "technique": "differential replay of bounded-exhaustive workloads (all 64x64 operand pairs x 8 connectives x 6 orders x 3 kinds, all depth-3/4 histories over 12 actions, TDD n=1 all tuples) incl. one 65536-node diagram, restrict of all functions in both cube orders and a count cache carried through every history, across 4 (thorough: 8) separately built feature configurations x 2-3 worker counts; transcript equality + truth-table model + structural/ref-count audit",
   "text": "The same recorder source is compiled per configuration; every observation (tables via the harness's interpreter, node counts, orders, gc effects, audit verdicts) of every enumerated operation and history step must equal the model and be identical in all builds.",
   "note": "MTBDD is index-backend only and therefore excluded; configurations are compared on the recorder's workloads (depth 3/4, n=3)",
   "ref": "3/C20"
